@@ -60,3 +60,14 @@ impl Clone for PathBuf {
 impl<'a> OsLike for &'a PathBuf { open spec fn os_view(&self) -> Seq<u8> { path_bytes((**self)@) } }
 // the byte rendering of a path ("/a/b"): uninterpreted, only used as an opaque value (C10)
 pub uninterp spec fn path_bytes(p: PathV) -> Seq<u8>;
+// `impl<T: ?Sized + AsRef<OsStr>> From<&T> for OsString` for paths: the path's bytes
+pub uninterp spec fn os_of_path(p: PathV) -> OsString;
+pub broadcast axiom fn axiom_os_of_path(p: PathV) ensures (#[trigger] os_of_path(p))@ == path_bytes(p);
+impl<'a> FromSpecImpl<&'a PathBuf> for OsString {
+    open spec fn obeys_from_spec() -> bool { true }
+    open spec fn from_spec(o: &'a PathBuf) -> OsString { os_of_path(o@) }
+}
+impl<'a> From<&'a PathBuf> for OsString {
+    #[verifier::external_body]
+    fn from(o: &'a PathBuf) -> (r: OsString) { unimplemented!() }
+}
